@@ -395,7 +395,16 @@ def execute(trace, ctx):
                 with open(path) as fh:
                     name, atoms_info, bonds = read_topology(fh)
                 with open(path) as fh:
+                    if len(trace["ops"]) % 2 == 0:
+                        # between open() and the load the NAME is given to another file (the original renamed away, a
+                        # different topology written in its place): the handle still is the file that was opened
+                        os.rename(path, path + ".moved")
+                        with open(path, "w") as other_:
+                            other_.write("[ moleculetype ]\nIMPOSTOR 1\n[ atoms ]\n1 C 1 IMP X1 1 0.0 12.0\n2 C 1 IMP X2 2 0.0 12.0\n[ bonds ]\n1 2\n")
+                        ctx.fault("path_given_to_another_file_after_open")
                     mt = MoleculeTop(fh)
+                if os.path.exists(path + ".moved"):
+                    os.replace(path + ".moved", path)
                 ctx.probe("loaded_from_open_file")
             elif how == "forced_format":
                 name, atoms_info, bonds = read_topology(path, file_format="itp")
@@ -793,8 +802,16 @@ def execute_c16(trace, ctx):
                 ctx.probe("written_from_a_copy")
             step = "write B"
             fa.write(pb)
+            if len(a_text) % 3 == 0 and len(a_text) < 200000:
+                # the path is re-written by SOMEBODY ELSE (another topology), then the same object writes to it again: the
+                # file must hold this object's content afterwards
+                step = "write B again after another writer"
+                with open(pb, "w") as other_:
+                    other_.write("; somebody else's file\n[ moleculetype ]\nOTHER 1\n[ atoms ]\n1 C 1 OTH C1 1 0.0 12.0\n")
+                fa.write(pb)
+                ctx.probe("same_object_writes_again_after_another_writer")
             del fa
-            texts["B"] = _read_image(seam, pb)
+            texts["B"] = _read_image(seam, pb) if not (len(a_text) % 3 == 0 and len(a_text) < 200000) else open(pb).read()
             step = "read B"
             fb = ItpFile(pb)
             if via == "copy_second":
